@@ -13,7 +13,7 @@ THOROUGH_RUNS = 10 ** 7
 RULE = ("seeded histories on 2-3 tokens: C_InitToken on the free slot, re-initialisation with right/wrong SO PIN and with/without open sessions, object, session, login and PIN "
         "operations on every token, external removal of a token directory between restarts, restarts. After every call all session handles are read out; periodically and at the end every "
         "token is read out completely (objects with label/value, both PINs by login, flags, label, serial, slot id) and compared with the reference model, which an operation on token A "
-        "never changes for token B. Every fifth plan runs on the SQLite object store (real SQLite on a scratch directory). Distinct+non-trivial: (operation on A, number of other tokens, what the other tokens held, outcome).")
+        "never changes for token B. Every fifth plan runs on the SQLite object store (real SQLite over the simulated disk). Distinct+non-trivial: (operation on A, number of other tokens, what the other tokens held, outcome).")
 PROBES = ["fresh_init_checked", "reinit_ok_checked", "reinit_wrong_pin", "reinit_with_session", "other_token_readout", "other_token_pins_verified", "restart_tokens_checked", "slot_id_formula", "new_free_slot", "token_removed_externally", "sessions_other_token_checked", "reinit_old_user_pin_probed", "db_backend_runs"]
 DEATH_IS_VIOLATION = ()
 
@@ -93,8 +93,8 @@ def gen(seed, tier, index):
     g.kinds = ["data", "aes", "cert", "rsa_pub", "generic", "ec_priv"]
     dbmode = (index % 5 == 4)
     if dbmode:
-        # configuration stratum: the SQLite object store (real SQLite on a scratch directory behind the pass-through path of the file layer)
-        g.knobs.setdefault("conf", {})["objectstore.backend"] = "db"; g.knobs["tokendir"] = "@scratch"
+        # configuration stratum: the SQLite object store, on the simulated disk through the SQLite VFS seam (DESIGN 10.8)
+        g.knobs.setdefault("conf", {})["objectstore.backend"] = "db"
     g.begin()
     def probe(tid, pid):
         g.emit({"act": "probe_handles", "via": []}, tid)
@@ -252,4 +252,4 @@ TECHNIQUE = "deterministic simulation: seeded multi-token init/re-init/restart h
 CLAIM = ("Seeded exploration: multi-token histories (fresh and repeated initialisation, wrong PIN, open sessions, external directory removal, restarts) run in the real library on the simulated disk; "
          "acceptance of every C_InitToken is predicted, and after every call the sessions of all tokens, and periodically every token's complete content (objects, values, both PINs, flags, label, serial, slot id), "
          "are compared with a model in which an operation on one token never changes another. Evidence, not proof. The softhsm2-util binaries are not run (directory removal stands in for --delete-token).")
-NOTE = "Trusted: reference model; file back end only in this check (the SQLite back end is not built into the simulator yet)."
+NOTE = "Trusted: reference model; every fifth plan runs on the SQLite object store over the simulated disk (SQLite VFS seam); softhsm2-util itself is not run."
